@@ -113,18 +113,18 @@ func genRemoteScenario(p *prng.R) rmScenario {
 		sc.ReuseLimit = -1 // pooling off
 	}
 	sc.ClientTLS = !p.Chance(1, 5)
-	sc.MTASTS = p.Chance(1, 2)
-	sc.LocalPolicy = prng.Pick(p, []string{"", "", "", "min-tls-encrypted", "min-tls-authenticated", "min-mx-mtasts"})
+	sc.MTASTS = p.Chance(2, 5)
+	sc.LocalPolicy = prng.Pick(p, []string{"", "", "", "", "", "min-tls-encrypted", "min-tls-authenticated", "min-mx-mtasts"})
 	sc.StrictRTLS = p.Chance(1, 4)
 	sc.NoOverride = p.Chance(1, 5)
 	for k := 0; k < sc.Domains; k++ {
 		pr := rmProfile{
-			TLS:                 prng.Pick(p, []string{"none", "none", "good", "good", "good", "selfsigned", "handshake", "reply454"}),
+			TLS:                 prng.Pick(p, []string{"none", "none", "none", "good", "good", "good", "good", "selfsigned", "handshake", "reply454"}),
 			Reach:               "ok",
-			STS:                 prng.Pick(p, []string{"none", "enforce", "enforce", "enforce-mismatch", "testing-mismatch"}),
+			STS:                 prng.Pick(p, []string{"none", "enforce", "enforce", "enforce", "enforce-mismatch", "testing-mismatch"}),
 			AdvertiseRequireTLS: p.Bool(),
 		}
-		if p.Chance(1, 4) {
+		if p.Chance(1, 5) {
 			pr.Reach = prng.Pick(p, []string{"greet-refuse", "ehlo-refuse", "unreachable", "dns-fail", "nxdomain", "null-mx", "first-mx-down", "first-mx-down"})
 		}
 		sc.Profiles = append(sc.Profiles, pr)
@@ -153,7 +153,7 @@ func genRemoteScenario(p *prng.R) rmScenario {
 			doms := p.Perm(sc.Domains)[:nd]
 			for i, dom := range doms {
 				for r, nr := 0, p.Range(1, 2); r < nr; r++ {
-					rc := rmRcpt{Domain: dom, Ctx: p.Weighted(ctxW), US: p.Range(300, 20000)}
+					rc := rmRcpt{Domain: dom, Ctx: p.Weighted(ctxW), US: p.Range(300, 40000)}
 					if i > 0 && rc.Ctx == ctxBG {
 						// never wait unboundedly for a second destination while holding the first
 						rc.Ctx = ctxShort
@@ -202,6 +202,7 @@ type rmStats struct {
 	greetRefused, ehloRefused, dialRefused  atomic.Int64
 	rsetDropped, closedAfterCommit          atomic.Int64
 	refusals                                sync.Map // exit path class -> *atomic.Int64
+	others                                  sync.Map // texts of unclassified AddRcpt errors (digits and addresses stripped)
 }
 
 func (st *rmStats) refusal(class string) {
@@ -213,31 +214,65 @@ func (st *rmStats) refusal(class string) {
 // text. Evidence only - no verdict depends on it.
 func classifyRcptErr(err error) string {
 	t := err.Error()
+	has := func(sub string) bool { return strings.Contains(t, sub) }
 	switch {
-	case isCtxErr(err):
+	case isCtxErr(err) || has("i/o timeout") || has("operation was canceled"):
 		return "context"
-	case strings.Contains(t, "unauthenticated but required (REQUIRETLS)"):
+	case has("unauthenticated but required (REQUIRETLS)"):
 		return "requiretls_no_authenticated_tls"
-	case strings.Contains(t, "MX record authenticity (REQUIRETLS)"):
+	case has("MX record authenticity (REQUIRETLS)"):
 		return "requiretls_mx_not_authenticated"
-	case strings.Contains(t, "quarantined"):
+	case has("MX record authenticity (MTA-STS)"):
+		return "mtasts_mx_not_listed"
+	case has("MTA-STS"):
+		return "mtasts_tls_refusal"
+	case has("Failed to establish the MX record authenticity"):
+		return "local_policy_mx_level"
+	case has("unauthenticated but required"):
+		return "local_policy_tls_level"
+	case has("quarantined"):
 		return "quarantined"
-	case strings.Contains(t, "null MX"):
+	case has("does not accept email"):
 		return "null_mx"
-	case strings.Contains(t, "MX lookup error"):
-		return "mx_lookup_error"
-	case strings.Contains(t, "No usable MXs"):
-		switch {
-		case strings.Contains(t, "(MTA-STS)"):
-			return "no_usable_mx_mtasts_refusal"
-		case strings.Contains(t, "MX record authenticity") || strings.Contains(t, "unauthenticated but required"):
-			return "no_usable_mx_local_policy_refusal"
-		}
-		return "no_usable_mx_connect_failure"
-	case strings.Contains(t, "REQUIRETLS"):
+	case has("no such host"):
+		return "mx_lookup_nxdomain"
+	case has("server misbehaving"):
+		return "mx_lookup_failure"
+	case has("nobody listens"):
+		return "all_mx_unreachable"
+	case has("no service here"):
+		return "greeting_refused"
+	case has("go away"):
+		return "ehlo_refused"
+	case has("TLS not available due to temporary reason"):
+		return "starttls_refused_454"
+	case has("sender refused") || has("sender deferred"):
+		return "mail_rejected_by_next_hop"
+	case has("no such user"):
+		return "rcpt_rejected_by_next_hop"
+	case has("EOF") || has("connection reset") || has("broken pipe") || has("closed network connection"):
+		return "connection_dropped"
+	case has("REQUIRETLS"):
 		return "requiretls_not_offered_by_server"
 	}
 	return "smtp_or_other"
+}
+
+// otherErrClass strips the variable parts of an error text.
+func otherErrClass(err error) string {
+	t := err.Error()
+	var b strings.Builder
+	for _, r := range t {
+		if r >= '0' && r <= '9' {
+			continue
+		}
+		b.WriteRune(r)
+	}
+	t = b.String()
+	if len(t) > 90 {
+		t = t[:90]
+	}
+	return t
 }
 
 var rmPKI struct {
@@ -292,7 +327,7 @@ func deliveryOf(from string) (w, k int, ok bool) {
 }
 
 func runRemoteCases(t *testing.T, r *rep.Reporter, env instrEnv) {
-	n := r.N(64, 5000)
+	n := r.N(96, 6000)
 	for i := 0; i < n; i++ {
 		idx := baseRemote + i
 		r.Run(idx, fmt.Sprintf("remote-%d", i), func(c *rep.Case) {
@@ -552,6 +587,10 @@ func runRemoteCases(t *testing.T, r *rep.Reporter, env instrEnv) {
 				exits++
 				return true
 			})
+			st.others.Range(func(k, _ any) bool {
+				r.Distinct("remote_other_rcpt_errors", k.(string))
+				return true
+			})
 			tlsConns, reused := 0, 0
 			for _, s := range servers {
 				for _, cr := range s.Transcript() {
@@ -632,7 +671,11 @@ func runRemoteDelivery(tgt *remote.Target, w, k int, d rmDelivery, mon *insideMo
 				st.rcptCtxErr.Add(1)
 			}
 			st.rcptErr.Add(1)
-			st.refusal(classifyRcptErr(err))
+			cls := classifyRcptErr(err)
+			st.refusal(cls)
+			if cls == "smtp_or_other" {
+				st.others.Store(otherErrClass(err), true)
+			}
 			continue
 		}
 		st.rcptOK.Add(1)
